@@ -373,10 +373,16 @@ func main() {
 	)
 	// order: simplest first; VERIF_SEED rotates the start so that the process-global
 	// invocation indices differ between runs.
+	// The cheap direct+shuffle family (enumerated first) always runs first, so that a
+	// budget cut cannot skip it.
 	order := seq(len(cases))
-	if r.Seed != 0 && len(cases) > 0 {
-		k := int(uint64(r.Seed) % uint64(len(cases)))
-		order = append(order[k:], order[:k]...)
+	first := 0
+	for first < len(cases) && strings.HasPrefix(cases[first].Family, "direct+shuffle") {
+		first++
+	}
+	if rest := len(cases) - first; r.Seed != 0 && rest > 0 {
+		k := first + int(uint64(r.Seed)%uint64(rest))
+		order = append(append(append([]int{}, order[:first]...), order[k:]...), order[first:k]...)
 	}
 
 	// ---- phase 1: driver compilations, shipping, in-process worker -------------------
@@ -640,7 +646,7 @@ func main() {
 	r.Finish(ev.Coverage{
 		"evaluations":              atomic.LoadInt64(&evaluations),
 		"distinct_nontrivial":      len(nontrivialSet),
-		"rule":                     "every program of the generator (operator chains to depth 3 over 16 operators x 1-3 source shards; shared sub-slice shapes; trees of nested shuffles; pragmas at every position; Cache/CachePartial with every subset of shards pre-cached, with and without complementing the cache state after the driver compiled; Result arguments pipelined/shuffled/nested/multiple), each with and without machine combiners; one evaluation = one compiled graph compared with the driver's first compilation (views A2,B,A3,C,D,E) or one invariant pass; distinct_nontrivial = distinct canonical graphs that have at least one non-root task (i.e. at least one stage boundary)",
+		"rule":                     "every program of the generator (one slice value - shared sub-slice, materialized slice, reused result - consumed directly and through shuffles into 1, 2 and 3 shards in one invocation, both orders; operator chains to depth 3 over 16 operators x 1-3 source shards; shared sub-slice shapes; trees of nested shuffles; pragmas at every position; Cache/CachePartial with every subset of shards pre-cached, with and without complementing the cache state after the driver compiled; Result arguments pipelined/shuffled/nested/multiple), each with and without machine combiners; one evaluation = one compiled graph compared with the driver's first compilation (views A2,B,A3,C,D,E) or one invariant pass; distinct_nontrivial = distinct canonical graphs that have at least one non-root task (i.e. at least one stage boundary)",
 		"cases":                    len(cases),
 		"cases_completed":          done,
 		"invocations_compiled_A":   atomic.LoadInt64(&nCompiled),
